@@ -36,4 +36,11 @@ func init() {
 		{Name: "generic-no-done-after-enter", File: "cypher/models/walk/walk.go", Old: "\t\t\tif visitor.Done() {\n\t\t\t\treturn nil\n\t\t\t}\n\t\t}\n\n\t\tif !nextNode.HasNext() {", New: "\t\t}\n\n\t\tif !nextNode.HasNext() {", Expect: "C11-generic-stop-gates"},
 		{Name: "nil-guard-removed", File: "cypher/models/walk/walk_cypher.go", Old: "func newCypherWalkCursor(node cypher.SyntaxNode) (*Cursor[cypher.SyntaxNode], error) {\n\tif isNilNode(node) {\n\t\treturn nil, fmt.Errorf(\"unable to negotiate cypher model type %T into a translation cursor\", node)\n\t}\n", New: "func newCypherWalkCursor(node cypher.SyntaxNode) (*Cursor[cypher.SyntaxNode], error) {\n", Expect: "C11-walk-nil-guard|newCypherWalkCursor"},
 	}
+	mutations["C10"] = []Mutation{
+		{Name: "xor-operand-unwrapped", File: "cypher/models/cypher/format/format.go", Old: "s.writeOperand(output, precedenceConjunction, joinedExpression)", New: "s.WriteExpression(output, joinedExpression)", Expect: "C10-R1-precedence|Conjunction>ExclusiveDisjunction"},
+		{Name: "precedence-order-swapped", File: "cypher/models/cypher/format/format.go", Old: "\tprecedenceExclusiveDisjunction\n\tprecedenceConjunction\n", New: "\tprecedenceConjunction\n\tprecedenceExclusiveDisjunction\n", Expect: "C10-R1-precedence|Conjunction>ExclusiveDisjunction"},
+		{Name: "wrap-condition-inverted", File: "cypher/models/cypher/format/format.go", Old: "if operandPrecedence(operand) >= parentPrecedence {", New: "if operandPrecedence(operand) > parentPrecedence+1 {", Expect: "C10-R1-precedence"},
+		{Name: "float-as-integer", File: "cypher/models/cypher/format/format.go", Old: "\tif !strings.ContainsAny(formatted, \".eEIN\") {\n\t\tformatted += \".0\"\n\t}\n", New: "\t_ = strings.ContainsAny\n", Expect: "C10-R3-literal-class"},
+		{Name: "emitter-ignores-exclusive", File: "cypher/models/cypher/format/format.go", Old: "if typedExpression.IsExclusive && len(typedExpression.Kinds) > 1 {", New: "if false && len(typedExpression.Kinds) > 1 {", Expect: "C10-R2-emitter-field|KindMatcher.IsExclusive"},
+	}
 }
